@@ -774,7 +774,35 @@ func malformed(r *kit.Rand, id string) script {
 	return script{id: id, ops: ops}
 }
 
+// emptyBoundsFirst: forward and reverse iterators whose bounds are empty NON-nil
+// slices, combined with nil, empty and real keys, on the live database and on a
+// snapshot, over keys on both sides of the other bound.  It is the FIRST script
+// of the stream, and its nil/empty-only listings come before any listing with a
+// real key: pebble copies the bounds into a per-iterator buffer that is pooled
+// and, while that buffer has never been allocated, a zero-length bound becomes
+// a nil bound inside pebble ("no bound") — only then does the wrapper's own
+// end check in Valid() decide the outcome.
+func emptyBoundsFirst() script {
+	var b strings.Builder
+	b.WriteString("set d0 00 02\nset d0 61 01\nset d0 6100 05\nset d0 62 03\nset d0 ff 04\nsnap d0 s0\nset d0 63 06\ndel d0 62\n")
+	first := [][2]string{{"-", "e"}, {"e", "e"}, {"e", "-"}}
+	second := [][2]string{{"61", "e"}, {"e", "61"}, {"00", "e"}, {"e", "00"}, {"ff", "e"}, {"e", "ff"}, {"e", "6100"}, {"6100", "e"},
+		{"-", "61"}, {"61", "-"}, {"-", "e"}, {"e", "e"}, {"e", "-"}}
+	for _, grp := range [][][2]string{first, second} {
+		for _, h := range []string{"d0", "s0"} {
+			for _, se := range grp {
+				for _, dir := range []string{"asc", "desc"} {
+					fmt.Fprintf(&b, "it %s %s %s %s\n", h, dir, se[0], se[1])
+				}
+			}
+		}
+	}
+	return sc("a-empty-bounds-first", false, b.String())
+}
+
 func gen(w *kit.Out, r *kit.Rand, tier string) {
+	emit(w, emptyBoundsFirst())
+
 	// ops before any open, unknown backend
 	w.Case("m-noopen")
 	w.Op("set d0 61 01")
